@@ -76,7 +76,7 @@ def parse_repo_table_tests():
 
 def native_beacons(rows, profile="dev"):
     """run the real functions natively (replay/common) on (kind, tip, sec, step) rows"""
-    cdir = os.path.join(core.VERIF, "replay", "common")
+    cdir = os.path.join(core.REPLAY_CRATES, "common")
     import shutil
     shutil.copyfile(os.path.join(core.REPO, "Cargo.lock"), os.path.join(cdir, "Cargo.lock"))
     env = dict(os.environ)
@@ -92,7 +92,7 @@ def native_beacons(rows, profile="dev"):
 
 
 def native_query(lines, profile="dev"):
-    cdir = os.path.join(core.VERIF, "replay", "common")
+    cdir = os.path.join(core.REPLAY_CRATES, "common")
     env = dict(os.environ)
     env["CARGO_NET_OFFLINE"] = "true"
     cmd = ["cargo", "run", "--offline", "-q", "--target-dir", os.path.join(core.CACHE, "replay-target")]
